@@ -179,10 +179,3 @@ def invoke_custom_serdes(exists: bool, rv: int):
     else:
         h.check(st.updates_for()[0][0].payload == ("P", rv) and tr.kind == "suspend", "payload must be encoded by serdes_payload")
     h.end()
-
-
-# callbacks / invokes across invocations with external completion in between (composed world; lemma shared with C02)
-from harness import C02 as _C02  # noqa: E402
-
-composed_callback_invoke = _C02.t_condition_callback_invoke_page1
-composed_callback_invoke.__module__ = __name__
